@@ -43,13 +43,27 @@ var (
 		AbbreviatedKey:     compare.AbbreviatedKeyDisableSlash,
 		FormatKey:          pebble.DefaultComparer.FormatKey,
 		FormatValue:        pebble.DefaultComparer.FormatValue,
-		Separator:          pebble.DefaultComparer.Separator,
+		Separator:          slashSpanSeparator,
 		Split:              pebble.DefaultComparer.Split,
-		Successor:          pebble.DefaultComparer.Successor,
+		Successor:          slashSpanSuccessor,
 		ImmediateSuccessor: pebble.DefaultComparer.ImmediateSuccessor,
 		Name:               "oxia-slash-spans",
 	}
 )
+
+// Separator and Successor are only used to shorten the keys stored in the
+// sstable index blocks and must satisfy `a <= Separator(a, b) < b` and
+// `a <= Successor(a)` with respect to Compare. The bytewise defaults do not:
+// e.g. they shorten ("x.", "x0") to "x/", which sorts after "x0" in the
+// slash-span order, and keys become unreachable once a table has several
+// blocks. Returning the key itself is always valid.
+func slashSpanSeparator(dst, a, _ []byte) []byte {
+	return append(dst, a...)
+}
+
+func slashSpanSuccessor(dst, a []byte) []byte {
+	return append(dst, a...)
+}
 
 type PebbleFactory struct {
 	dataDir string
